@@ -50,11 +50,13 @@ Record behaviour := mkBeh {
                                         array's before it resizes the array *)
   b_append_type_first  : bool;  (* new (C08) DataArray::appendData: the same check before the array is enlarged *)
   b_df_colname_check   : bool;  (* new (C08) createDataFrame rejects an empty column name before anything is created *)
-  b_array_rank_max     : bool   (* new (C08) createDataArray rejects a rank above H5S_MAX_RANK (32) before the group is created *)
+  b_array_rank_max     : bool;  (* new (C08) createDataArray rejects a rank above H5S_MAX_RANK (32) before the group is created *)
+  b_create_typed_first : bool   (* new (C08) the template Block::createDataArray(name, type, data, data_type) checks that the data can be
+                                        converted to data_type before it creates the array *)
 }.
 
-Definition repaired : behaviour := mkBeh true true true true true true true true true true true true true true true true true true true true.
-Definition code_today : behaviour := mkBeh false false false false false false false false false false false false false false false false false false false false.
+Definition repaired : behaviour := mkBeh true true true true true true true true true true true true true true true true true true true true true.
+Definition code_today : behaviour := mkBeh false false false false false false false false false false false false false false false false false false false false false.
 
 (** ** call arguments and results *)
 Inductive harg := HNone | HEnt (o : nat).
@@ -62,6 +64,7 @@ Inductive harg := HNone | HEnt (o : nat).
 Inductive cargs :=
 | XNone
 | XArray (dt : dtype) (shape : list Z)
+| XArrayT (mem : dtype) (n : Z) (dt : dtype)   (* template createDataArray(name, type, std::vector<mem>(n), dt); dt = Nothing: inferred *)
 | XFrame (cols : list column)
 | XTag (pos : list string)
 | XMTag (positions : harg)
@@ -122,6 +125,7 @@ Inductive op :=
 | OSetDataT (o : nat) (mem : dtype) (shape : list Z)      (* template DataSet::setData(value): dataExtent(shape(value)),
                                                              then the write of elements of type [mem] *)
 | OAppendData (o : nat) (mem : dtype) (count : list Z) (axis : nat)   (* DataArray::appendData(dtype, ptr, count, axis) *)
+| OSetLtype (o : nat) (lt : string)          (* Feature::linkType(LinkType) *)
 | OTouch   (o : nat) (ks : list kind)        (* a well-formed write of a field this model does not carry (label, unit, data,
                                                 values, descriptor fields, ...) on a live entity of one of the kinds [ks] *)
 | OReopen.
@@ -352,19 +356,19 @@ Definition create_backend (s : db) (p : option nat) (k : kind) (name type : stri
   if h5_bad_link_name name then fail (bump s) EH5
   else ret (add_ent s (mkEnt (new_hdr s k p name type) lk py)) (VEnt (Some (next s))).
 
-Definition do_create (s : db) (pk : option kind) (p : option nat) (k : kind) (name type : string) (x : cargs)
+(** nix::data_type_is_numeric *)
+Definition dtype_numeric (d : dtype) : bool :=
+  match d with DUInt8 | DUInt16 | DUInt32 | DUInt64 | DInt8 | DInt16 | DInt32 | DInt64 | DFloat | DDouble => true | _ => false end.
+(** can H5Dwrite convert elements of memory type [mem] into the file type [file]?  (this build of HDF5: numeric types
+    convert into one another, Bool — an 8-bit enum — converts into every numeric type and nothing converts into it,
+    String converts to and from nothing else) *)
+Definition dtype_writable (mem file : dtype) : bool :=
+  dtype_eqb mem file || (dtype_numeric file && (dtype_numeric mem || dtype_eqb mem DBool)).
+(** Block::createDataArray(name, type, data_type, shape) *)
+Definition create_array (s : db) (pk : option kind) (p : option nat) (name type : string) (dt : dtype) (shape : list Z)
   : db * res value :=
+  let k := KArray in
   let c := children s p k in
-  let blk := match p with Some b => b | None => 0 end in
-  match k, x with
-  | KBlock, XNone | KSection, XNone | KSource, XNone | KGroup, XNone | KTag, XTag _ =>
-    match check_name name with Some e => fail s e | None =>
-    if is_empty_str type then fail s EEmpty else
-    match lookup_named pk c name with Some _ => fail s EDup | None =>
-    create_backend s p k name type no_links
-      (match x with XTag pos => set_tpos pos no_payload | _ => no_payload end)
-    end end
-  | KArray, XArray dt shape =>
     match check_name name with Some e => fail s e | None =>
     if is_empty_str type then fail s EEmpty else
     match lookup_named pk c name with Some _ => fail s EDup | None =>
@@ -384,7 +388,30 @@ Definition do_create (s : db) (pk : option kind) (p : option nat) (k : kind) (na
       if negb (h5_storable dt) then fail s1 EInvArg
       else if Nat.eqb (List.length shape) 0 then fail s1 ERank
       else ret (upd s1 (next s) (with_pay (fun py => set_extent shape (set_dtype dt py)))) (VEnt (Some (next s)))
+    end end.
+
+Definition do_create (s : db) (pk : option kind) (p : option nat) (k : kind) (name type : string) (x : cargs)
+  : db * res value :=
+  let c := children s p k in
+  let blk := match p with Some b => b | None => 0 end in
+  match k, x with
+  | KBlock, XNone | KSection, XNone | KSource, XNone | KGroup, XNone | KTag, XTag _ =>
+    match check_name name with Some e => fail s e | None =>
+    if is_empty_str type then fail s EEmpty else
+    match lookup_named pk c name with Some _ => fail s EDup | None =>
+    create_backend s p k name type no_links
+      (match x with XTag pos => set_tpos pos no_payload | _ => no_payload end)
     end end
+  | KArray, XArray dt shape => create_array s pk p name type dt shape
+  | KArray, XArrayT mem n dt =>
+    (* header template: the array is created with the shape of the data, then the data is written *)
+    let dt' := if dtype_eqb dt DNothing then mem else dt in
+    if b_create_typed_first B && negb (dtype_writable mem dt') then fail s EInvArg else
+    let out := create_array s pk p name type dt' [n] in
+    match snd out with
+    | Ok _ => if dtype_writable mem dt' then out else (fst out, Err EH5Err)     (* today: the array stays *)
+    | _ => out
+    end
   | KFrame, XFrame cols =>
     let py := mkPay DNothing [0%Z] [] None None cols EmptyString in
     if b_df_checks B then
@@ -785,14 +812,6 @@ Definition relink_section (s : db) (o : nat) (sl : oslot) (lookup_first : bool) 
 
 Definition extent_of (s : db) (o : option nat) : option (list Z) :=
   match o with Some t => option_map (fun e => p_extent (e_pay e)) (find_ent s t) | None => None end.
-(** nix::data_type_is_numeric *)
-Definition dtype_numeric (d : dtype) : bool :=
-  match d with DUInt8 | DUInt16 | DUInt32 | DUInt64 | DInt8 | DInt16 | DInt32 | DInt64 | DFloat | DDouble => true | _ => false end.
-(** can H5Dwrite convert elements of memory type [mem] into the file type [file]?  (this build of HDF5: numeric types
-    convert into one another, Bool — an 8-bit enum — converts into every numeric type and nothing converts into it,
-    String converts to and from nothing else) *)
-Definition dtype_writable (mem file : dtype) : bool :=
-  dtype_eqb mem file || (dtype_numeric file && (dtype_numeric mem || dtype_eqb mem DBool)).
 (** appendData: the shapes agree in every dimension but [axis] *)
 Fixpoint same_but (axis i : nat) (a b : list Z) : bool :=
   match a, b with
@@ -1014,6 +1033,11 @@ Definition do_setter (s : db) (o : nat) (oper : op) : db * res value :=
           if w then ret s1 VUnit else fail s1 EH5Err            (* today: enlarged, then H5Dwrite cannot convert *)
       | _ => fail s EModel
       end
+    | OSetLtype _ lt =>
+      match k with
+      | KFeature => ret (upd s o (with_pay (fun p => mkPay (p_dtype p) (p_extent p) (p_tpos p) (p_text p) (p_units p) (p_cols p) lt))) VUnit
+      | _ => fail s EModel
+      end
     | OTouch _ ks => if existsb (kind_eqb k) ks then ret s VUnit else fail s EModel
     | _ => fail s EModel
     end
@@ -1059,7 +1083,7 @@ Definition step (s : db) (o : op) : db * res value :=
   | OSetType x _ | OSetDef x _ | OSetMeta x _ | OSetMetaS x _ | OSetLink x _ | OSetLinkS x _
   | OSetPos x _ | OSetPosS x _ | OSetExt x _ | OSetExtS x _ | OSetData x _ | OSetDataS x _
   | OSetUnits x _ | OSetExtent x _ | OSetValues x _ | OSetTagPos x _ | OSetTagExt x _
-  | ODimAdd x _ _ | ODimClear x | OSetDataT x _ _ | OAppendData x _ _ _ | OTouch x _ => do_setter s x o
+  | ODimAdd x _ _ | ODimClear x | OSetDataT x _ _ | OAppendData x _ _ _ | OSetLtype x _ | OTouch x _ => do_setter s x o
   | OReopen => ret s VUnit       (* the library keeps no write-back state: the file is the state *)
   end.
 
@@ -1090,4 +1114,5 @@ Definition current_behaviour : behaviour :=
      b_setdata_type_first := true;    (* fixed in /repo: 13076e5 *)
      b_append_type_first := true;    (* fixed in /repo: 333dc71 *)
      b_df_colname_check := true;    (* fixed in /repo: 9dd5538 *)
-     b_array_rank_max := true        (* fixed in /repo: 65ab894 *) |}.
+     b_array_rank_max := true;       (* fixed in /repo: 65ab894 *)
+     b_create_typed_first := false   (* NOT fixed in /repo: notes/proposed-fixes/C08-5-createDataArray-template-type-first.patch *) |}.
